@@ -31,7 +31,7 @@ type c17Case struct {
 	Ops []c17Op `json:"ops"`
 }
 
-var c17Names = []string{"d1", "d2", "d3", "shop"}
+var c17Names = []string{"d1", "d2", "d3", "shop", "shop2", "d"}
 
 func c17Gen(rt *rapid.T) c17Case {
 	dbs := map[string]*model.DB{}
@@ -73,7 +73,7 @@ func c17Gen(rt *rapid.T) c17Case {
 			}
 		case "use":
 			names := append([]string{}, c17Names...)
-			names = append(names, "nosuch")
+			names = append(names, "nosuch", "sho", "d1x")
 			if cur != "" {
 				names = append(names, cur, cur) // re-selecting the current database
 			}
